@@ -542,6 +542,9 @@ def tour():
                     if lo <= actual and lo > 0:
                         # a true lower bound with NO upper bound (iter::from_fn, successors, chain of an unbounded one)
                         hs.append(["reset", "iter 0 %s %s lens=- hints=%d:* items=%s panic=-" % (which, h, lo, its), "dropAll"])
+                # a truthful but enormous upper bound (take_while / scan over an unbounded source)
+                for up in (2 ** 64 - 1, 2 ** 63 - 1, 2 ** 63):
+                    hs.append(["reset", "iter 0 %s %s lens=- hints=0:%d items=%s panic=-" % (which, h, up, its), "dropAll"])
                 hs.append(["reset", "iter 0 %s %s lens=- hints=0:* items=%s panic=-" % (which, h, its), "conv 0 shareable", "clone 1 0", "dropAll"])
                 hs.append(["reset", "iter 0 %s %s lens=- hints=%d:%d items=%s panic=-" % (which, h, actual, actual + 3, its), "dropAll"])
     # constructors: lengths across internal boundaries, capacities >= length
